@@ -98,6 +98,11 @@ func (e *p2pEnv) headReply(a string) peers.Reply {
 			c = e.fork
 		}
 		return peers.Reply{Kind: "ok", Headers: []*vhdr.Header{c[h-1]}}
+	case "big": // a head in the upper half of the uint64 range, on the main chain's fork id
+		var k uint64
+		fmt.Sscanf(parts[1], "%d", &k)
+		last := e.chain[len(e.chain)-1]
+		return peers.Reply{Kind: "ok", Headers: []*vhdr.Header{{Chain: last.Chain, H: 1<<63 + k, T: last.T + int64(k)*int64(time.Second), Salt: last.Salt}}}
 	case "fail":
 		switch parts[1] {
 		case "notfound":
@@ -187,12 +192,16 @@ func (e *p2pEnv) c09Case(answers []string, order []int, trusted int, R uint64) {
 	r := "zero"
 	if out.h != nil {
 		which := "?"
-		if int(out.h.H) <= len(e.chain) && sameHeader(out.h, e.chain[out.h.H-1]) {
+		if out.h.H >= 1<<63 {
+			r = fmt.Sprintf("big:%d", out.h.H-1<<63)
+		} else if int(out.h.H) <= len(e.chain) && sameHeader(out.h, e.chain[out.h.H-1]) {
 			which = "main"
 		} else if int(out.h.H) <= len(e.fork) && sameHeader(out.h, e.fork[out.h.H-1]) {
 			which = "fork"
 		}
-		r = fmt.Sprintf("%s:%d", which, out.h.H)
+		if out.h.H < 1<<63 {
+			r = fmt.Sprintf("%s:%d", which, out.h.H)
+		}
 	}
 	ec := "nil"
 	if out.err != nil {
@@ -281,6 +290,16 @@ func runC09(tier string, r *rng) {
 			e.c09Case(ans, ord, 0, 0)
 			if n <= 4 {
 				e.c09Case(ans, ord, 55, 0)
+			}
+		}
+	}
+	// no quorum: distinct heads that COLLIDE IN HEIGHT (forks) next to a higher one, and heads in the upper half of uint64
+	for _, ans := range [][]string{{"main:60", "fork:60", "main:61"}, {"main:60", "fork:60", "main:61", "hang"}, {"main:58", "fork:58", "main:59"},
+		{"main:60", "big:10"}, {"main:60", "big:1000"}, {"big:1000", "main:60", "fork:61"}, {"big:3", "big:1000", "main:60"}, {"main:60", "fork:60", "big:1", "main:61"}} {
+		for _, o := range perms(len(ans)) {
+			e.c09Case(ans, o, 0, 0)
+			if len(ans) <= 4 {
+				e.c09Case(ans, o, 55, 0)
 			}
 		}
 	}
